@@ -144,8 +144,83 @@ def generate():
 def apply_mutant(repo, m):
     p = os.path.join(repo, m["file"])
     lines = open(p).read().split("\n")
-    lines[m["line"] - 1] = m["_after_full"]
+    if "_span" in m:
+        a, b = m["_span"]
+        lines[a - 1:b] = m["_after_full"].split("\n")
+    else:
+        lines[m["line"] - 1] = m["_after_full"]
     open(p, "w").write("\n".join(lines))
+
+
+def fn_mutants():
+    """cargo-mutants style: the body of every non-test function replaced by a constant of its return type."""
+    res = []
+    for f in FILES:
+        lines = open(os.path.join("/repo", f)).read().split("\n")
+        in_tests = False
+        i = 0
+        while i < len(lines):
+            t = lines[i]
+            if t.strip().startswith("#[cfg(test)]"):
+                break
+            m = re.match(r"^(\s*)(pub(\([a-z]+\))? )?fn (\w+)", t)
+            if not m:
+                i += 1
+                continue
+            # signature up to the opening brace
+            j = i
+            sig = ""
+            while j < len(lines) and "{" not in strip_strings(lines[j]):
+                sig += lines[j] + " "
+                j += 1
+            if j >= len(lines):
+                break
+            sig += lines[j]
+            if sig.strip().endswith(";"):
+                i = j + 1
+                continue
+            # matching close brace
+            depth = 0
+            k = j
+            done = False
+            while k < len(lines):
+                code = strip_strings(lines[k]).split("//")[0]
+                depth += code.count("{") - code.count("}")
+                if depth == 0 and k >= j:
+                    done = True
+                    break
+                k += 1
+            if not done or k == j:
+                i = j + 1
+                continue
+            rt = re.search(r"->\s*(.+?)\s*(where\b.*)?\{\s*$", sig.strip())
+            rtype = rt.group(1).strip() if rt else ""
+            vals = []
+            if rtype == "":
+                vals = [""]
+            elif rtype == "bool":
+                vals = ["true", "false"]
+            elif re.match(r"^(io::)?Result<\(\), ", rtype) or rtype.startswith("Result<(),") or rtype == "fmt::Result":
+                vals = ["Ok(())"]
+            elif rtype.startswith("Option<"):
+                vals = ["None"]
+            elif rtype in ("u8", "u16", "u32", "u64", "usize"):
+                vals = ["0", "1"]
+            elif rtype.startswith("Vec<"):
+                vals = ["vec![]"]
+            elif rtype == "String":
+                vals = ["String::new()"]
+            elif re.match(r"^Result<Option<", rtype):
+                vals = ["Ok(None)"]
+            elif re.match(r"^\(usize, u8\)|^\(u32, u32\)", rtype):
+                vals = ["(0, 0)", "(1, 1)"]
+            ind = m.group(1)
+            for v in vals:
+                body = lines[i:j + 1] + ([ind + "    " + v] if v else []) + [ind + "}"]
+                res.append({"file": f, "line": i + 1, "op": "fn:%s->%s" % (m.group(4), v or "{}"), "before": "fn %s(..) -> %s { ... }" % (m.group(4), rtype or "()"),
+                            "after": "fn %s(..) { %s }" % (m.group(4), v), "_after_full": "\n".join(body), "_span": [i + 1, k + 1]})
+            i = k + 1
+    return res
 
 
 def load():
@@ -233,7 +308,18 @@ def main():
         elif a == "--only":
             only = args.pop(0).split(",")
     os.makedirs(OUT, exist_ok=True)
-    if cmd == "list":
+    if cmd == "fnlist":
+        ms = load()
+        have = {(m["file"], m["line"], m["op"]) for m in ms}
+        n = 0
+        for m in fn_mutants():
+            if (m["file"], m["line"], m["op"]) not in have:
+                n += 1
+                m["id"] = "F%03d" % n
+                ms.append(m)
+        save(ms)
+        print(n, "function-body mutants added")
+    elif cmd == "list":
         ms = generate()
         save(ms)
         byf = {}
